@@ -182,3 +182,24 @@ Definition judge_rank (c : list (list float) * float * float * option (list Z * 
   | _, _, None => [2; 0]
   | _, _, Some _ => [1; 0]
   end.
+
+(** ** ELECTRE credibility matrix of the state the method is evaluated on (component level):
+    the code's own evaluateCredibilityMatrix against [cred_matrix]; off-diagonal entries only
+    (the code keeps 1 on the diagonal and removes it before distilling, the model starts from 0).
+    codes: 0 same, 20 same up to float drift, 3 different, 2 model rejects, 9 not an ELECTRE state *)
+Definition mkCC (st : @state NumF) (obs : list (list float)) := (st, obs).
+Definition judge_cred (c : @state NumF * list (list float)) : list nat :=
+  let '(st, obs) := c in
+  match st_params st with
+  | PElectre ecs _ =>
+      match @cred_matrix NumF (st_cons st) (st_crits st) ecs with
+      | Ok m =>
+          let o0 := map (fun ir => map (fun jx => if Nat.eqb (fst ir) (fst jx) then 0%float else snd jx)
+                                       (zip (seq 0 (List.length (snd ir))) (snd ir)))
+                        (zip (seq 0 (List.length obs)) obs) in
+          [ if list_eqb (list_eqb f_same) m o0 then 0
+            else if list_eqb (list_eqb fclose) m o0 then 20 else 3 ]
+      | Err _ => [2]
+      end
+  | _ => [9]
+  end.
